@@ -81,6 +81,8 @@ class Program:
                 f_["crate"] = c
                 self.formats.append(f_)
         self._const_init = {}
+        global CURRENT
+        CURRENT = self
 
     def body(self, key):
         return self.bodies.get(key)
@@ -111,6 +113,9 @@ class Program:
 
     def format_at(self, file, line):
         return [f for f in self.formats if f["file"] == file and f["line"] == line]
+
+
+CURRENT = None  # the Program loaded last (named-constant lookup in rules.common.fold)
 
 
 class Body:
@@ -267,6 +272,18 @@ TRANSPARENT = {
     "core::slice::iter",
     "std::slice::to_vec",
     "core::str::as_bytes",
+    # read-and-reset helpers: the call's value is the previous value of the place (the place's
+    # new value is modelled in Terms._from_def)
+    "std::option::Option::take",
+    "std::mem::take",
+    "std::mem::replace",
+}
+
+# `&mut place` calls whose effect on the place is a plain assignment
+_RESET = {
+    "std::option::Option::take": lambda args: ("agg", "std::option::Option", "None", ()),
+    "std::mem::take": lambda args: ("call", "std::default::Default::default", ()),
+    "std::mem::replace": lambda args: args[0] if args else ("unknown",),
 }
 
 UNWRAP_OK = {"std::result::Result::unwrap", "std::result::Result::expect"}
@@ -736,15 +753,23 @@ class Terms:
             nm = call_name(t) or "?"
             args = tuple(self.operand(a, dbb, len(self.b.blocks[dbb]["stmts"])) for i, a in enumerate(t["args"]) if i != ai)
             nu = len([k for k in uk_full if not k.startswith("@")])
+            reset = _RESET.get(nm)
+            if reset is not None:
+                newv = reset(args)
+                if len(dk) > nu:
+                    sub = tuple(x[1:] for x in dk[nu:] if x.startswith("."))
+                    prev = self.place({"l": l, "p": uproj, "s": "_%d" % l}, dbb, didx)
+                    return ("upd", prev, sub, newv)
+                return self._apply_proj(newv, rest)
             if len(dk) > nu:
                 sub = tuple(x[1:] for x in dk[nu:] if x.startswith("."))
                 prev = self.place({"l": l, "p": uproj, "s": "_%d" % l}, dbb, didx)
                 inner_prev = prev
                 for s_ in sub:
                     inner_prev = self._field(inner_prev, s_)
-                return ("upd", prev, sub, ("mut", inner_prev, nm, args))
+                return ("upd", prev, sub, ("mut", inner_prev, nm, args) + ((ai,) if ai else ()))
             prev = self.place({"l": l, "p": dproj, "s": "_%d" % l}, dbb, didx)
-            return self._apply_proj(("mut", prev, nm, args), rest)
+            return self._apply_proj(("mut", prev, nm, args) + ((ai,) if ai else ()), rest)
         return ("unknown",)
 
     def rvalue(self, rv, bb, idx):
